@@ -54,11 +54,11 @@ def _config():
   return sc
 
 
-def _study(service, ds, owner, t1, t2, study_state):
+def _study(service, ds, owner, t1, t2, study_state, config=None):
   """Creates the study through the public CreateStudy path and fills trials directly (driving the unit)."""
   from vizier._src.service import study_pb2, vizier_service_pb2
   req = vizier_service_pb2.CreateStudyRequest(parent='owners/%s' % owner, study=study_pb2.Study(
-      display_name='s', study_spec=_config().to_proto()))
+      display_name='s', study_spec=(config or _config()).to_proto()))
   st = service.CreateStudy(req)
   name = st.name
   if t1:
@@ -67,7 +67,9 @@ def _study(service, ds, owner, t1, t2, study_state):
                                    study=name, x=0.5))
   if t2:
     ds.create_trial(svc.make_trial(2, SUCCEEDED, client='v', final=2.5, study=name, x=0.25))
-  if study_state != 1:
+  if study_state == 0:
+    ds.delete_study(name)               # the handle outlives the study (deleted by somebody else meanwhile)
+  elif study_state != 1:
     s = ds.load_study(name)
     s.state = study_state
     ds.update_study(s)
@@ -83,7 +85,7 @@ def _trial_obs(t):
 def _program(study, kind, target, a):
   """One client-level call; returns a comparable observation."""
   if kind == 0:
-    return sorted(_trial_obs(t.materialize()) for t in study.suggest(count=1 + a, client_id='w'))
+    return sorted(_trial_obs(t.materialize()) for t in _bounded(lambda: study.suggest(count=1 + a, client_id='w')))
   if kind == 1:
     return _trial_obs(study.get_trial(target).materialize())
   if kind == 2:
@@ -135,25 +137,44 @@ def _observe(study, kind, target, a):
     return ('exc', type(e).__name__)
 
 
-def _run(sql, kind, target, a, t1, t2, study_state, args):
+def _run(sql, kind, target, a, t1, t2, study_state, args, config=None):
   with NoTracing():
     owner = 'p%d_%d' % (os.getpid(), next(_COUNTER))
     outs = []
     for name, service, ds in _deployments(sql):
-      study = _study(service, ds, owner, t1, t2, study_state)
+      study = _study(service, ds, owner, t1, t2, study_state, config)
       # the data a client can read afterwards is part of the observation
       first = _observe(study, kind, target, a)
       after = _observe(study, 6, 0, 0) if kind != 11 else None
       outs.append((first, after))
     ok = outs[0] == outs[1] == outs[2]
     tag = 'kind%d:%s' % (kind, outs[0][0][1] if outs[0][0][0] == 'exc' else 'ok')
+    if not ok and study_state == 0 and _deleted_study_signature(outs) and known(KF_DELETED):
+      reach('known:' + tag)
+      return finish(True, args, obs='known finding ' + KF_DELETED)
   reach(tag)
   return finish(ok, args, obs=None if ok else {'local': outs[0], 'grpc': outs[1], 'grpc+pythia': outs[2]})
 
 
+KF_DELETED = 'C08-call-on-deleted-study-error-class-differs'
+
+
+def _deleted_study_signature(outs):
+  """Open finding: on a study deleted after the handle was created the server-side custom_errors.NotFoundError reaches an
+  in-process client as it is, while over gRPC it arrives as RpcError(UNKNOWN).  Exactly that difference, nothing else."""
+  def norm(x):
+    if x == ('exc', 'RpcError:UNKNOWN'):
+      return ('exc', 'NotFoundError')
+    return x
+  local = outs[0]
+  if ('exc', 'NotFoundError') not in local:
+    return False
+  return all(tuple(norm(x) for x in o) == local for o in outs[1:])
+
+
 def client_call(sql: bool, kind: int, target: int, a: int, t1: int, t2: bool, study_state: int) -> bool:
   """
-  pre: 0 <= kind <= 11 and 1 <= target <= 3 and 0 <= a <= 2 and 0 <= t1 <= 5 and 1 <= study_state <= 3
+  pre: 0 <= kind <= 11 and 1 <= target <= 3 and 0 <= a <= 2 and 0 <= t1 <= 5 and 0 <= study_state <= 3
   post: _
   """
   kind = conc(kind, 0, 11)
@@ -161,7 +182,7 @@ def client_call(sql: bool, kind: int, target: int, a: int, t1: int, t2: bool, st
   if sl is not None and kind != int(sl):
     return True
   sql, target, a = cbool(sql), conc(target, 1, 3), conc(a, 0, 2)
-  t1, t2, study_state = conc(t1, 0, 5), cbool(t2), conc(study_state, 1, 3)
+  t1, t2, study_state = conc(t1, 0, 5), cbool(t2), conc(study_state, 0, 3)
   if kind in (0, 6, 7, 8, 9, 11) and target != 1:
     return True
   if kind in (1, 3, 4, 5, 6, 7, 10, 11) and a != 0:
@@ -169,6 +190,29 @@ def client_call(sql: bool, kind: int, target: int, a: int, t1: int, t2: bool, st
   if kind in (0, 2, 9) and a > 1:
     return True
   return _run(sql, kind, target, a, t1, 1 if t2 else 0, study_state, (sql, kind, target, a, t1, t2, study_state))
+
+
+def _config_large():
+  """A study whose proto is large (hundreds of parameters, long metadata): sizes matter on a real wire."""
+  sc = vz.StudyConfig(algorithm='GRID_SEARCH')
+  for i in range(400):
+    sc.search_space.root.add_float_param('learning_rate_of_layer_%03d' % i, 0.0, 1.0)
+  sc.metric_information.append(vz.MetricInformation('m', goal=vz.ObjectiveMetricGoal.MAXIMIZE))
+  sc.metadata.ns('user')['notes'] = 'n' * 20000
+  return sc
+
+
+def client_call_large(sql: bool, kind: int, a: int, study_state: int) -> bool:
+  """
+  pre: 0 <= kind <= 4 and 0 <= a <= 2 and 1 <= study_state <= 3
+  post: _
+  """
+  sql, kind, a, study_state = cbool(sql), [0, 6, 7, 8, 11][conc(kind, 0, 4)], conc(a, 0, 2), conc(study_state, 1, 3)
+  if kind != 8 and a > (1 if kind == 0 else 0):
+    return True
+  with NoTracing():
+    cfg = _config_large()
+  return _run(sql, kind, 1, a, 0, 0, study_state, (sql, [0, 6, 7, 8, 11].index(kind), a, study_state), config=cfg)
 
 
 # ---- custom policy factory, failing policies, and endpoint switching -------------------------------------------
@@ -191,9 +235,12 @@ class _FixedPolicy(_pythia.Policy):
 
 
 _FAIL = [None]
+_FACTORY_FAIL = [None]
 
 
 def _custom_factory(problem_statement, algorithm, policy_supporter, study_name):
+  if _FACTORY_FAIL[0] is not None:
+    raise _FACTORY_FAIL[0]              # e.g. what DefaultPolicyFactory does for an unregistered algorithm name
   return _FixedPolicy(_FAIL[0])
 
 
@@ -214,21 +261,49 @@ class _Boom(Exception):
   pass
 
 
+class _Hang(Exception):
+  pass
+
+
+def _bounded(fn, seconds=8.0):
+  """Runs fn() in a daemon thread; a call that does not come back (a client polling an operation that never finishes) is
+  reported as _Hang instead of stalling the checker until its time budget runs out."""
+  import threading
+  box = {}
+
+  def run():
+    try:
+      box['r'] = fn()
+    except BaseException as e:  # noqa
+      box['e'] = e
+
+  t = threading.Thread(target=run, daemon=True)
+  t.start()
+  t.join(seconds)
+  if t.is_alive():
+    raise _Hang('no answer within %ss' % seconds)
+  if 'e' in box:
+    raise box['e']
+  return box['r']
+
+
 def custom_policy(fail: int, count: int, t1: int) -> bool:
   """
-  pre: 0 <= fail <= 3 and 1 <= count <= 2 and 0 <= t1 <= 2
+  pre: 0 <= fail <= 5 and 1 <= count <= 2 and 0 <= t1 <= 2
   post: _
   """
-  fail, count, t1 = conc(fail, 0, 3), conc(count, 1, 2), conc(t1, 0, 2)
+  fail, count, t1 = conc(fail, 0, 5), conc(count, 1, 2), conc(t1, 0, 2)
   with NoTracing():
     import grpc
-    _FAIL[0] = [None, ValueError('bad'), ZeroDivisionError('div'), _Boom('boom')][fail]
+    _FAIL[0] = [None, ValueError('bad'), ZeroDivisionError('div'), _Boom('boom'), None, None][fail]
+    # 4, 5: the policy FACTORY fails (unregistered algorithm name, missing dependency), not policy.suggest
+    _FACTORY_FAIL[0] = [None, None, None, None, ValueError('Algorithm X is not registered.'), ImportError('no module')][fail]
     owner = 'c%d_%d' % (os.getpid(), next(_COUNTER))
     outs = []
     for name, service, ds in _custom_deployments():
       study = _study(service, ds, owner, [0, ACTIVE, REQUESTED][t1], 0, 1)
       try:
-        got = sorted(_trial_obs(t.materialize()) for t in study.suggest(count=count, client_id='w'))
+        got = sorted(_trial_obs(t.materialize()) for t in _bounded(lambda: study.suggest(count=count, client_id='w')))
         first = ('ok', got)
       except RuntimeError:
         first = ('exc', 'RuntimeError')                 # the documented client-level error for a failed operation
@@ -240,13 +315,14 @@ def custom_policy(fail: int, count: int, t1: int) -> bool:
       ops = ds.list_suggestion_operations(study.resource_name, 'w') if first is not None else []
       all_done = all(o.done for o in ops)
       _FAIL[0], saved = None, _FAIL[0]
+      _FACTORY_FAIL[0], saved_f = None, _FACTORY_FAIL[0]
       try:
-        again = len(study.suggest(count=count, client_id='w'))
+        again = len(_bounded(lambda: study.suggest(count=count, client_id='w')))
       except Exception as e:  # noqa
         again = type(e).__name__
-      _FAIL[0] = saved
+      _FAIL[0], _FACTORY_FAIL[0] = saved, saved_f
       outs.append((first, all_done, again))
-    _FAIL[0] = None
+    _FAIL[0] = _FACTORY_FAIL[0] = None
     ok = outs[0] == outs[1] == outs[2] and all(o[1] for o in outs)
     if fail == 0:
       ok = ok and outs[0][0][0] == 'ok' and all(dict(t[3]).get('x') == 0.75 or t[2] is False for t in outs[0][0][1])
